@@ -88,3 +88,6 @@ mod tests {
 #[cfg(kani)]
 #[path = "/verif/harness/cram/rans_4x8_encode.rs"]
 mod verif_kani;
+
+#[cfg(kani)]
+pub(crate) use self::order_0::verif_kani as verif_kani_order_0;
